@@ -32,6 +32,51 @@ def build(ctx):
     return bins["h_num"], drv
 
 
+MT_MODEL_VOS = ["Base/Conv.vo", "DD/Table.vo", "DD/Sem.vo", "DD/Build.vo", "DD/Apply.vo", "Num/I64.vo", "Num/F64.vo",
+                "DD/ApplyMtbdd.vo"]
+
+
+def build_mt(ctx):
+    """driver of the function-level model (coq/DD/ApplyMtbdd.v) + the DD harness"""
+    pid = ctx.pid
+    ctx.pid = "C10b"          # own build directory next to the scalar driver's
+    try:
+        drv = vf.ocaml_build(ctx, "ExC10b.v", "c10b_main.ml", extra_ml=["dd_types.ml"], model_vos=MT_MODEL_VOS)
+    finally:
+        ctx.pid = pid
+    return vf.cargo_build(["h_dd"])["h_dd"], drv
+
+
+def run_mt(ctx, cases):
+    """function level, second pass: the extracted MODEL of terminal_bin/apply_bin/apply_ite/restrict/constant/var/
+    eval replayed on the lifted snapshots (MTBDD<I64>), the extracted F64 scalar model applied pointwise and the
+    structure audits with normalised terminal values (MTBDD<F64>)"""
+    binp, drv = build_mt(ctx)
+    ok, bad, _ = vf.lockstep_sharded(ctx, binp, drv, cases, nshards=16, tag="-mt")
+    by_id = {h.split()[0]: (h, ops) for h, ops in cases}
+    seen = set()
+    for cid, msg in bad:
+        cls = ddcommon.msg_class(msg)
+        if cls in seen or len(seen) >= 2:
+            continue
+        seen.add(cls)
+        header, ops = by_id[cid]
+        kind = "prop" if "kind=prop" in msg else "corr"
+        small, smsg = vf.shrink_case(ctx, binp, drv, header, ops, kind, budget=120,
+                                     protect=lambda o: o.startswith("VARS"), accept=lambda m2, c=cls: ddcommon.msg_class(m2) == c)
+        smsg = smsg or msg
+        hk = " ".join(t for t in header.split()[1:] if t.split("=")[0] in ("kind", "threads"))
+        body = ";".join(small) if len(small) <= 30 else f"case-{cid}"
+        vf.report_violation(
+            ctx, f"{kind}:{cls[0]}:{cls[1]}:{hk}:mt:{body}",
+            {"stage": "correspondence", "driver": "c10b", "kind": kind, "case_header": header, "ops": small, "verdict": smsg,
+             "replay_cmd": "./check C10 --replay <this file>",
+             "theorem_or_relation": "C10 function level: coq/Props/C10.v C10_mt_* (model = implementation on the same table and operands); "
+                                    "MTBDD<F64>: result value table == extracted F64 scalar model applied pointwise, terminal values normalised"},
+            nfif=(kind != "prop"))
+    return ok, bad
+
+
 def report_bad(ctx, binp, drv, cases, bad, seen):
     """Each evaluation is independent: the failing line alone is the minimal case."""
     by_id = {h.split()[0]: (h, ops) for h, ops in cases}
@@ -136,8 +181,10 @@ def run(ctx):
         if bad:
             report_bad(ctx, binp, drv, cases, bad, seen)
     # ---- function level: MTBDD<I64> diagrams on the real manager (DD harness) ----
-    fl_cases = function_level_cases(ctx)
+    fl_cases = function_level_cases(ctx) + function_level_cases_f64(ctx)
     fl_ok, fl_bad = ddcommon.run_dd(ctx, ["C10"], fl_cases, rule="", proofs=False, write_ev=False)
+    # ---- the same traces against the extracted model of the apply algorithms / the F64 scalar model ----
+    mt_ok, mt_bad = run_mt(ctx, fl_cases)
     ctx.samples = samples + [{"case": h, "ops": ops[:10]} for h, ops in fl_cases[:1] + fl_cases[-1:]]
     ctx.stats["distinct_nontrivial"] = len(distinct) + len({tuple(o) for _, o in fl_cases})
     vf.write_evidence(
@@ -146,6 +193,9 @@ def run(ctx):
         checker_cmd="make -C coq Props/C10.vo (coqc 8.16.1, Flocq 4.1.0) + Print Assumptions audit; ./check C10",
         extra_cov={"cases_ok": total_ok, "cases_bad": total_bad, "tier": ctx.tier,
                    "function_level_cases_ok": fl_ok, "function_level_cases_bad": len(fl_bad),
+                   "model_replay_cases_ok": mt_ok, "model_replay_cases_bad": len(mt_bad),
+                   "model_replay": {k: int(v) for k, v in ctx.stats.items() if k.startswith("c10b_")},
+                   "model_replay_rule": "the same MTBDD<I64> traces, second driver (ocaml/c10b_main.ml): every snapshot lifted with the model's terminal coding, mt_ok_b (hypothesis MtOK) evaluated; every ADD/SUB/MUL/DIV/MIN/MAX/ITE/RESTRICT/CONSTN/VAR replayed by the extracted model (mt_apply_bin/mt_apply_ite/mt_restrict/mt_const/mt_var; association-list cache, no cache, two operand orders) on the snapshot before the operation (value table of the model's result == value table of the real result; same edge when the model finds an existing node) and on the first snapshot after it (the model must return the real result edge and create nothing); the RESTRICT cube is rebuilt by the model and recognised by cube_lits; EVAL compared with the extracted mt_eval on all assignments. MTBDD<F64> traces (kind mtbddf: all ordered pairs of the 121 one-variable functions over {0, 1, -1, 0.5, 3, -7, max finite, min subnormal, +-inf, NaN} under the six operators, -0.0 / NaN-with-payload inputs, random histories on 1..4 variables with ite, restrict, gc, reordering): raw value table of every result == extracted Flocq F64 operation applied pointwise, wf_b and canonicity over all handle pairs with terminal value = normalised bit pattern",
                    "function_level_rule": "MTBDD<I64> managers: all 121 one-variable functions with terminals from {0,1,-1,2,3,-7,MIN,MAX,+inf,-inf,nan}, every ordered pair under add/sub/mul/div/min/max (both variable orders); random functions over 1..4 variables, histories issuing different operators back to back on the same operands, ite with 0-1-valued conditions, restrict, constant, var, eval, gc and reordering in between; every result lifted to a snapshot, value tables computed by the extracted interpreter, expected values by the extracted I64 model applied pointwise",
                    "evaluations": int(ctx.stats.get("evals", 0)),
                    "cases": int(ctx.stats.get("cases", 0)),
@@ -169,8 +219,35 @@ def function_level_cases(ctx):
     return cases
 
 
+def function_level_cases_f64(ctx):
+    """MTBDD<F64> (harness kind mtbddf)"""
+    rng = random.Random(ctx.seed * 7919 + 11)
+    thorough = ctx.tier == "thorough"
+    cases = []
+    cid = 0
+    for op in ddgen.MT_OPS:
+        for sw in ((False, True) if thorough else (rng.random() < 0.5,)):
+            # two halves per operator (balances the shards)
+            cases.append(ddgen.mtf_case_pairs_1var(f"fp{cid}", op, sw, 0, 61)); cid += 1
+            cases.append(ddgen.mtf_case_pairs_1var(f"fp{cid}", op, sw, 61, 121)); cid += 1
+    for _ in range(600 if thorough else 60):
+        cases.append(ddgen.mtf_case_history(f"fh{cid}", rng, threads=rng.choice([1, 1, 4]))); cid += 1
+    return cases
+
+
 def replay(ctx, path):
     r = json.load(open(path))
+    if r.get("driver") == "c10b":
+        binp, drv = build_mt(ctx)
+        f = os.path.join(ctx.workdir, "replay.txt")
+        vf.write_cases(f, [(r["case_header"], r["ops"])])
+        ok, bad = vf.lockstep(ctx, binp, drv, f, tag="-replay")
+        for cid, msg in bad:
+            print(f"replay: case {cid}: {msg}")
+            vf.report_violation(ctx, "replay:" + ";".join(r["ops"][:30]), r, nfif=False)
+        if not bad:
+            print("replay: no divergence")
+        return
     if "kind=mtbdd" in r.get("case_header", ""):
         return ddcommon.replay_dd(ctx, path)
     binp, drv = build(ctx)
